@@ -50,8 +50,8 @@ information about Graphviz and for installation instructions.`,
 		if err := graph.SetDir(true); err != nil {
 			fatal(err)
 		}
+		inProgress := make(map[string]bool)
 		for _, path := range paths {
-			inProgress := make(map[string]bool)
 			if err := idx.Graph(path, inProgress, graph, onlyStages); err != nil {
 				fatal(err)
 			}
